@@ -62,6 +62,59 @@ Corrupted records (label value, tag depth, exhausted flag, emitted byte, chunk a
 emits, IF without push, extra byte in the code file) are rejected at the corrupted event with the right claim named.
 Mutations of the forward model (EXITM without restore, skipped line emits, label + 1, faulty line emits, silent
 RESTORE) violate ForwardIsAllowed.
+
+Symbol table as a machine of the composition (second growth of AsCore; same files + AsCore_GenS*.cfg).  The composed
+state has a component sy = a state of Symbols.tla (C13, INSTANCE; Adder, EnterSymbol, DoSection, DoEndSection, DoPP,
+FindNode, DoPushV, DoPopV, ExitPass, NextPass are used unchanged): the trees FirstSymbol / FirstLocSymbol as functions
+<<name, section or local handle>> -> [val, chg, def], section list and stack with the PUBLIC / GLOBAL / FORWARD lists,
+the PUSHV stacks; en = ENUM's counter and increment; the local symbol handles (MomLocHandle, LocHandleCnt,
+GLOBALSYMBOLS) are carried by the tags of the projected macro processor.  Every S event carries ALL sym_def / sym_mod /
+sym_ref records of the line (hook classes sym, ref; + split for the label field and the arguments of the section /
+ENUM / PUSHV statements), the PASS event the definitions AssembleFile_InitPass makes itself.  Claims at every step:
+LabelEntersTable (+ LabelValueIsExec: a label field that is not the statement's operand enters exactly one constant
+(name, current section - or the local space of the innermost expansion that opened one -, LabelValue), first
+definition of the line, present unless the line complained), SymbolTableFollowsAdder (place and outcome new / same /
+changed / redef_* / double / mix of EVERY recorded definition are those of EnterSymbol / EnterLocSymbol + SymbolAdder
+on the table of the specification: EQU / = / labels may not be redefined within a pass whatever the value, SET / := /
+EVAL may, the same value across passes is silent), ConstantIsStable, RedefinitionIsReported (double <=> 1000, mix <=>
+2030 / 2035), DefKindMatchesStatement, ErrorDefinesNothing (EQU / SET line with an error: table after = table before),
+RefReadsTable (every lookup that found an entry shows the value / kind / defined-mark the table holds: 45 k reads in
+the corpus), SectionStackFollowsManual (SECTION / ENDSECTION / PUBLIC / GLOBAL / FORWARD = DoSection / DoEndSection /
+DoPP, their errors by number, recorded depth after EVERY statement), EnumAssignsSequentialValues, StackIsLifo,
+FinalTableIsListed (generated programs, -L: symbol table of the listing = global tree at the end of the last pass);
+SkippedIsInert / RecordedIsInert now include: no definition, no modification, table + section stack + PUSHV stacks +
+ENUM counter after = before; pass boundary = Symbols!NextPass (values survive, defined-marks reset; section stack /
+PUSHV stacks empty or reported: 1485 / warning 230 in OpenConstructsAreReported).  Named behaviour read off the code
+(manual silent): LabelSurvivesError, LabelErrorStillEmits (refined ErrorLineEmitsNoCode: `LX: db 1 / LX: db 2`
+emits both bytes), EnumLocalInExpansion, RedefinitionEvenIfEqual, QuietUnknownEqu, OpFieldExpandedAnyway ({sym} in the
+opcode field is looked up even on skipped / recorded lines), SetIsInstruction (Z80 / TLCS-90: SET b,r), label fields
+consumed by the target (C3x / C6x "||", "[..]"), ResetAt (ResetSymbolDefines sits in front of the first definition of
+TRUE; proposed_fixes/HOOK-symbol-tree.diff would record it, the tree of a record and POPV's write).
+Performance: the two trees are kept out of TLC's fingerprint (VIEW TView: they are a function of the events consumed);
+TLC takes 32 statements per step (CONSTANT Block, SequencesExt!FoldLeft; a rejection is located with Block = 1);
+`split` records are only parsed where used.  All 201 golden programs accepted; coverage: 87.4 % of the 355 040
+statements handled by a named action (was 85.4 %; per machine MP 55 %, CW 43 %, SY 17 % (label 10.0 k, EQU 8.3 k, SET
+2.7 k, other definitions 4.9 k, statements with a reference 45.1 k, section 1.1 k, ENUM 53), CA 11 %, DG 0.5 %, AB 0.3 %),
+12.6 % generic.  No golden program uses PUSHV / POPV.
+Forward model: SymAlpha (19 statements: LX: label, CX EQU 1|2, VX SET 1|2, CX SET 3, DB VX, SECTION S1, ENDSECTION
+[S1|S2], PUBLIC LX, PUSHV / POPV ,VX, ENUM EA,EB=5,EC, NEXTENUM ED,EE, IF 0, ENDIF, data) as family "sym" (quick: every
+program <= 3 lines, 18.8 k states; thorough <= 4 lines, 345 k states), 8 more Directed programs (definitions in macro
+and REPT bodies, in skipped branches, PUBLIC, section errors, LIFO), simulation over both alphabets; forward semantics
+written without Adder / EnterSymbol (FDef, FFind, FPlace); new invariants ConstantsKeepTheirValue,
+SkippedDefinesNothing, VariableIsLastSetOrPopped; the byte of DB VX in the predicted code file is the table's value.
+Quick: 5.2 k generated programs replayed (outcome + code file + trace + listing), 0 mismatches.
+Mutations of the real code (scratch copies, VERIF_REPO): label entered although IfAsm is false (DB lines) -> VIOLATION
+SkippedIsInert in generated programs, t_mic51, t_secdrive (+ c12's own definedness markers); EQU redefinition with the
+same value not reported (SymbolAdder) -> VIOLATION (model predicts errors, asl status 0) + 25 count drifts;
+ENDSECTION <name> does not pop -> VIOLATION (status) + SectionStackFollowsManual rejection.  Corrupted records (label
+value / name / section / missing / variable, SET outcome, skipped or recorded line that defines, reference value,
+SECTION / ENDSECTION depth, PUBLIC target, ENUM / NEXTENUM value, value after POPV, macro label handle, listing value /
+missing entry) are rejected at the corrupted event with the right claim named.  Mutations of the forward model
+(skipped label defined, silent / overwriting EQU, ENDSECTION without pop, POPV without restore, macro label global,
+NEXTENUM from 0, label error stops the data) violate ForwardIsAllowed / the declarative invariants.
+Not covered: expression evaluation (values of definitions are the recorded ones), spelling of temporary / composed
+names and the search path of a reference (C13), string / float values (compared by type), which tree a definition
+made by a target-specific handler inside an expansion goes to when section handle = local handle (guess: local).
 """
 import os
 
@@ -421,7 +474,7 @@ def main(tier):
         # composed validation: ONE recorded execution (all passes of one process) is validated against ALL
         # statement-level machines at once - CondAsm x AddrBook x Diag/Driver x CodeWriter (stream view) x MacroProc
         # (projected) - plus the cross-machine claims of spec/AsCore.tla (checks/ext_ascore.py); modules used there:
-        # "AsCore", "AsCore_Trace", "AsCore_MC", "AsCore_Gen"
+        # "AsCore", "AsCore_Trace", "AsCore_MC", "AsCore_Gen" (AsCore also INSTANCEs "Symbols": the symbol table)
         from checks import ext_ascore
         ext_ascore.run(rep, bld, tier)
     return rep.finish(
